@@ -41,7 +41,7 @@ def content(draw, kinds=(0, 1, 2, 3, 4, 5, 6, 7), weights=None):
 @st.composite
 def cfg(draw, max_dim=208, presets=(8, 8, 8, 7, 7, 6, 6, 5, 4), frames=(2, 16), allow_rc=True, allow_twopass=False,
         allow_superres=True, allow_grain=True, allow_10bit=True, lps=(1, 2, 4), tools_p=3, allow_tiles=True,
-        allow_sc=True, recon=1, allow_overlay=True, slow_presets=(3, 2, 1, 0), slow_p=0, min_dim=64, defective=False):
+        allow_sc=True, recon=1, allow_overlay=True, slow_presets=(3, 2, 1, 0), slow_p=0, min_dim=64, defective=False, exclude=None):
     """returns (cfg dict, frames, twopass flag).
     defective=False (the default for every check): features for which the pinned tree has LISTED known findings (known_findings.json) are drawn as
     before and then removed again - exclusion by construction, so that the search continues behind those findings instead of rediscovering them in
@@ -133,27 +133,28 @@ def cfg(draw, max_dim=208, presets=(8, 8, 8, 7, 7, 6, 6, 5, 4), frames=(2, 16), 
             c[name] = draw(st.integers(lo, hi))
     if not defective:
         ex = []
-        if c.pop("enable_overlays", None):
+        X = set(exclude) if exclude is not None else {"OVL", "AQ1", "GRAIN", "SRES", "16BP", "TPL0", "2PASS", "MINQ0"}   # per check: the features with listed findings for ITS property
+        if "OVL" in X and c.pop("enable_overlays", None):
             ex.append("OVL")
-        if c.get("enable_adaptive_quantization") == 1:
+        if "AQ1" in X and c.get("enable_adaptive_quantization") == 1:
             c.pop("enable_adaptive_quantization")
             ex.append("AQ1")
-        if c.pop("film_grain_denoise_strength", None):
+        if "GRAIN" in X and c.pop("film_grain_denoise_strength", None):
             ex.append("GRAIN")
-        if c.get("superres_mode"):
+        if "SRES" in X and c.get("superres_mode"):
             for k in ("superres_mode", "superres_denom", "superres_kf_denom"):
                 c.pop(k, None)
             ex.append("SRES")
-        if c.get("is_16bit_pipeline") and c.get("encoder_bit_depth", 8) == 8:
+        if "16BP" in X and c.get("is_16bit_pipeline") and c.get("encoder_bit_depth", 8) == 8:
             c.pop("is_16bit_pipeline")
             ex.append("16BP")
-        if c.get("enable_tpl_la", 1) == 0:
+        if "TPL0" in X and c.get("enable_tpl_la", 1) == 0 and c["enc_mode"] <= 4:
             c.pop("enable_tpl_la")
             ex.append("TPL0")
-        if twopass:
+        if "2PASS" in X and twopass:
             twopass = 0
             ex.append("2PASS")
-        if c.get("rate_control_mode") and c.get("min_qp_allowed") == 0:
+        if "MINQ0" in X and c.get("rate_control_mode") and c.get("min_qp_allowed") == 0:
             c["min_qp_allowed"] = 1
             ex.append("MINQ0")
         if ex:
